@@ -1258,3 +1258,14 @@ def _time_op_assign(eng, st, args, dty, callee, m):
         eng.oblige(st, "panic:time -= Duration underflow", time_lt(a, d))
         eng.store(st, args[0], time_sub(a, d, ty))
     return UNIT
+
+
+@summary(r"^<(u8|u16|u32|u64|u128|usize|i8|i16|i32|i64|i128|isize|bool|f64) as Default>::default$", "Default for primitive numbers / bool: zero / false")
+def _prim_default(eng, st, args, dty, callee, m):
+    t = m.group(1)
+    if t == "bool":
+        return z3.BoolVal(False)
+    if t == "f64":
+        return z3.FPVal(0.0, z3.Float64())
+    w = {"u8": 8, "i8": 8, "u16": 16, "i16": 16, "u32": 32, "i32": 32, "u64": 64, "i64": 64, "usize": 64, "isize": 64, "u128": 128, "i128": 128}[t]
+    return bv(0, w)
